@@ -4,6 +4,7 @@ import (
 	"encoding/json"
 	"fmt"
 	"hash/fnv"
+	"math"
 	"os"
 	"runtime"
 	"runtime/debug"
@@ -126,7 +127,28 @@ var (
 
 // beginCase journals the case about to run (one pwrite into a pre-opened file: a 20-byte length header
 // followed by the JSON; no truncation needed) and arms the watchdog.
+// tolUnit: the length that the "1" in relative tolerances 1e-9*(1+|a|+|b|) stands for. 1 for layouts in pixel-like
+// units; the case's largest size or spacing when that is below 1 (a drawing in units of 2^-30 has all its coordinates
+// below 1e-6: an absolute floor of 1e-9 would make every comparison pass). Set by Case.RunOpts, reset per case.
+var tolUnitBits atomic.Uint64
+
+func tolUnit() float64 {
+	if b := tolUnitBits.Load(); b != 0 {
+		return math.Float64frombits(b)
+	}
+	return 1
+}
+
+func setTolUnit(u float64) {
+	if u > 0 && u < 1 {
+		tolUnitBits.Store(math.Float64bits(u))
+	} else {
+		tolUnitBits.Store(0)
+	}
+}
+
 func beginCase(propID string, c any) {
+	tolUnitBits.Store(0)
 	var raw json.RawMessage
 	if cfg.Journal != "" || cfg.History != "" {
 		raw = mustRaw(c)
